@@ -34,9 +34,12 @@ static Verdict run(const Case &c) {
         } else had_foreign = true;
     };
     // one Query; returns false on oracle failure
+    int bridged_override = -1;
     auto query = [&](uint16_t seq, QResp &q) -> bool {
         Op op; op.kind = K_QUERY; op.a = {-1, seq};
-        Built b = build_frame(h, op, sh);
+        Shadow shq = sh;
+        if (bridged_override >= 0) shq.bridged = bridged_override != 0;    // the rule is per Query frame: Ethernet source != real source => broadcast
+        Built b = build_frame(h, op, shq);
         std::vector<Ev> tx = sends_only(w.deliver(ifi, b.frame));
         shadow_update_sem(sh, SEM_COMMAND, b);
         if (tx.size() != 1) { v.fail(fmt("Query seq %u answered by %zu frames, expected 1", seq, tx.size())); return false; }
@@ -65,6 +68,7 @@ static Verdict run(const Case &c) {
                 break;
             case K_ROUND: {
                 rounds++;
+                bridged_override = (int)op.arg(1, -1);
                 size_t k = obs.size();
                 maxk = std::max(maxk, (int)k);
                 std::vector<QDesc> got;
@@ -132,7 +136,8 @@ int main(int argc, char **argv) {
               "rounds with k > capacity are counted separately (histogram c07-histories:round-with-k>capacity); distinct = digest of the case";
     auto gen = rc::gen::exec([] {
         HCfg h = *hg::cfg_gen();
-        h.mtu = (size_t)*gx::pick({576, 576, 576, 577, 1500, 1500, 9216});
+        // capacity floor((MTU-34)/20): include MTUs where (MTU-34) is an exact multiple of 20 (594, 1514, 9214) and its neighbours
+        h.mtu = (size_t)*gx::weighted<int64_t>({{6, gx::pick({576, 576, 577, 593, 594, 595, 612, 613, 614, 1492, 1500, 1513, 1514, 1515})}, {3, gx::range<int64_t>(576, 900)}, {1, gx::pick({9214, 9216})}});
         size_t cap = (h.mtu - 34) / 20;
         Case c; h.to_case(c);
         Op d; d.kind = K_DISCOVER; d.a = {0, 0, *hg::gen_gen(), 1, *gx::pick({0, 0, 1}), 0, -1};
@@ -162,15 +167,17 @@ int main(int argc, char **argv) {
                     c.ops.push_back(o);
                 }
             }
-            Op r; r.kind = K_ROUND; r.a = {*hg::seq_gen()};
+            Op r; r.kind = K_ROUND; r.a = {*hg::seq_gen(), *gx::pick({-1, -1, -1, 0, 1})};
             c.ops.push_back(r);
-            if (*gx::chance(30)) {   // Reset in between, then the mapper comes back
+            if (*gx::chance(35)) {   // Reset in between (no Query before it), then the mapper comes back and the same stations are seen again
+                int first = next_id;
                 Op b; b.kind = K_BURST; b.a = {next_id, *gx::range<int>(1, 40), 0}; next_id += (int)b.a[1];
                 c.ops.push_back(b);
                 Op rs; rs.kind = K_RESET; rs.a = {0, 0, 1};
                 c.ops.push_back(rs);
                 c.ops.push_back(d);
-                Op r2; r2.kind = K_ROUND; r2.a = {*hg::seq_gen()};
+                if (*gx::chance(70)) { Op again; again.kind = K_BURST; again.a = {first, *gx::range<int>(1, (int)b.a[1]), 0}; c.ops.push_back(again); }   // re-observation after the Reset must be reported
+                Op r2; r2.kind = K_ROUND; r2.a = {*hg::seq_gen(), -1};
                 c.ops.push_back(r2);
             }
         }
